@@ -9,6 +9,8 @@ pub mod parser;
 pub mod parser_io;
 pub mod plot;
 pub mod set;
+#[cfg(rsbdd_verif)]
+pub mod verif_hooks;
 
 mod truth_table;
 
